@@ -13,8 +13,9 @@ RULE = ("queries: multisets of <=3 timestamps, sources: multisets of <=4 timesta
         "property's definition (set of admissible source samples per query) and, at kernel level, with the Lean model of "
         "jitvaluefrom. distinct = distinct (queries, sources, set, mode)")
 PROVED = ("vfT_window: the index chosen for a query is NaN or lies in the source window of the same epoch; other epochs' entries untouched "
-          "(all sizes, all modes, all ties); vfT_closest: mode closest returns a nearest sample of the epoch (vfInner_closest, left_invariant)")
-NOT_PROVED = "modes before / after (latest-before / earliest-after, NaN when none), _value_from glue (NaN / dtype handling), interpolate: oracle + correspondence only"
+          "(all sizes, all modes, all ties); vfT_closest / vfT_after / vfT_before: each mode returns exactly the neighbour the property names (nearest; earliest at-or-after; "
+          "latest at-or-before; NaN exactly when the epoch holds none), for sorted queries and samples of any length")
+NOT_PROVED = "_value_from glue (NaN / dtype handling, index mapping through the restricted arrays), interpolate: oracle + correspondence only"
 ASSUMPTIONS = ["both series sorted, ep canonical"]
 MODES = ["before", "closest", "after"]
 
